@@ -509,7 +509,8 @@ class domain(config_domain):
         default_keywords = {self.arch}
         default_keywords.update(self.settings["ACCEPT_KEYWORDS"])
         for x in self.settings["ACCEPT_KEYWORDS"]:
-            if x.startswith("~"):
+            # ~* stands for any testing keyword, it doesn't imply * (any stable keyword)
+            if x.startswith("~") and x != "~*":
                 default_keywords.add(x.lstrip("~"))
 
         # create keyword filters
